@@ -33,6 +33,7 @@ func main() {
 	commands["c14"] = runC14
 	commands["c15"] = runC15
 	commands["c20"] = runC20
+	commands["c09"] = runC09
 	commands["c14hash"] = func(a []string) { initCollisions(); runC14Hash(a) }
 	registerMore()
 	if len(os.Args) < 2 {
